@@ -15,14 +15,16 @@
         [fine_store_nonneg_R] shows that over the reals the store never goes
         negative when the maximum storage is >= 0 (all documented parameter
         ranges), so there the side condition always holds.
-      StorageTrapAll: the kernel panics on an empty series, so both segments
-        must be non-empty; the stored mass is added to the first output as
+      StorageTrapAll: an empty series carries the stored mass unchanged (fix
+        b73cc97), so every cut is covered, empty segments included; the stored
+        mass is added to the first output as
         [inflowMass + storedMass], and the returned state is 0, so the split run
         computes [x + 0] where the whole run has [x]: equal when [x + 0 = x]
         (true in R; in binary64 false only for x = -0)
         ([storage_trap_all_kernel_split_partial], [storage_trap_all_kernel_split_R]).
-      InstreamDissolvedNutrientDecay: panics on an empty series; with decay OFF
-        it is LumpedConstituentTransport ([..._nodecay_split_partial]); with decay ON
+      InstreamDissolvedNutrientDecay: an empty series returns at once (fix b73cc97);
+        with decay OFF it is LumpedConstituentTransport, every cut
+        ([..._nodecay_split_partial]); with decay ON
         the previous reach volume is a local that restarts from the segment's first
         volume: refuted in HotStartWitness.v.  Causality holds in both modes. *)
 From Coq Require Import List Arith Lia Bool ZArith.
@@ -355,8 +357,6 @@ Section S.
   Proof. zl_custom idtac. Qed.
   Definition trapall_unpack (st : list T) : option (unit * option T) :=
     match st with [m] => Some (tt, Some m) | _ => None end.
-  Definition trapall_guard (ins : list (list T)) : bool :=
-    match ins with [] :: _ => false | _ => true end.
 
   Definition trapall_outs (os : list T) : list (list T) := [os; zeros os].
   Lemma trapall_outs_laws : rows_laws trapall_outs.
@@ -366,76 +366,57 @@ Section S.
     kernel_of_machine trapall_unpack trapall_zip (fun _ => trapall_step) (fun _ => true)
       (fun _ s => [trapall_pack s]) (fun os => Some (trapall_outs os)).
 
+  (** since fix b73cc97 an empty series is accepted (state carried unchanged): no guard *)
   Lemma storage_trap_all_kernel_eq (p : list T) : forall s ins,
     storage_trap_all_kernel p s ins =
     match p with
-    | [] => if trapall_guard ins then trapall_machine s ins else None
+    | [] => trapall_machine s ins
     | _ => None
     end.
   Proof.
     intros s ins. destruct p as [|? ?]; [|reflexivity].
-    unfold storage_trap_all_kernel, trapall_machine, kernel_of_machine, trapall_unpack, trapall_zip, trapall_guard.
-    destruct s as [|m [|? ?]]; try (destruct ins as [|[|? ?] ?]; reflexivity).
-    destruct ins as [|a [|b [|c [|d [|? ?]]]]]; try (destruct a; reflexivity); try reflexivity.
+    unfold storage_trap_all_kernel, trapall_machine, kernel_of_machine, trapall_unpack, trapall_zip.
+    destruct s as [|m [|? ?]]; try (destruct ins as [|? ?]; reflexivity).
+    destruct ins as [|a [|b [|c [|d [|? ?]]]]]; reflexivity.
   Qed.
 
   Theorem storage_trap_all_kernel_causal (p : list T) : causal_spec (storage_trap_all_kernel p).
   Proof.
     destruct p as [|? ?]; [|apply causal_spec_none].
-    apply (causal_guard _ trapall_machine trapall_guard).
-    - intros s i. apply (storage_trap_all_kernel_eq []).
-    - apply kernel_of_machine_causal; [apply trapall_zip_laws|apply rows_outs_laws, trapall_outs_laws].
+    eapply causal_spec_ext; [intros s i; apply (storage_trap_all_kernel_eq [])|].
+    apply kernel_of_machine_causal; [apply trapall_zip_laws|apply rows_outs_laws, trapall_outs_laws].
   Qed.
 
-  Lemma trapall_run_none l : fst (run trapall_step None l) = None.
-  Proof.
-    induction l as [|y l IH]; [reflexivity|]. cbn.
-    destruct (run trapall_step None l) as [s os]. cbn in *. exact IH.
-  Qed.
-  Lemma trapall_run_cons st x l : fst (run trapall_step st (x :: l)) = None.
-  Proof.
-    cbn. pose proof (trapall_run_none l) as H.
-    destruct st; cbn; destruct (run trapall_step None l); exact H.
-  Qed.
-
-  (** loop states the later steps cannot tell apart when x + 0 = x *)
+  (** loop states the later steps and the packing cannot tell apart when x + 0 = x:
+      [None] (after a step; packs to 0) and [Some 0] (what unpacking that 0 gives) *)
   Definition trapall_sim (a b : option T) : Prop := a = b \/ (a = None /\ b = Some zero).
 
+  (** every cut, including empty segments (n = 0, n >= length, empty series) *)
   Theorem storage_trap_all_kernel_split_partial (p s0 : list T) ins n :
     (forall x : T, x + zero = x) ->
-    (forall a r, ins = a :: r -> 0 < n < length a) ->
     split_at (storage_trap_all_kernel p) s0 ins n.
   Proof.
-    intros Hadd Hn.
+    intros Hadd.
     destruct p as [|? ?]; [|reflexivity].
-    destruct ins as [|a r].
-    { unfold split_at, split_then. rewrite !storage_trap_all_kernel_eq. cbn.
-      unfold trapall_machine, kernel_of_machine. destruct (trapall_unpack s0) as [[? ?]|]; reflexivity. }
-    specialize (Hn a r eq_refl).
-    apply (split_at_guard _ trapall_machine trapall_guard (fun s i => storage_trap_all_kernel_eq [] s i)).
-    - cbn. destruct a; [cbn in Hn; lia|reflexivity].
-    - cbn. destruct a as [|x a]; [cbn in Hn; lia|]. destruct n; [lia|reflexivity].
-    - cbn. destruct (skipn n a) eqn:E; [|reflexivity].
-      apply (f_equal (@length T)) in E. rewrite skipn_length in E. cbn in E. lia.
-    - apply (kernel_of_machine_split_at trapall_unpack trapall_zip (fun _ => trapall_step) (fun _ => true)
+    assert (M : split_at trapall_machine s0 ins n).
+    { apply (kernel_of_machine_split_at trapall_unpack trapall_zip (fun _ => trapall_step) (fun _ => true)
                (fun _ s => [trapall_pack s]) (fun os => Some (trapall_outs os)) trapall_zip_laws
                (rows_outs_laws _ trapall_outs_laws) ltac:(intros; discriminate) (fun _ => trapall_sim)).
-      + intros aux u v x [->|[-> ->]]; [split; [left|]; reflexivity|].
+      - intros aux u v x [->|[-> ->]]; [split; [left|]; reflexivity|].
         cbn. split; [left; reflexivity|]. now rewrite Hadd.
-      + intros; reflexivity.
-      + intros; reflexivity.
-      + intros aux st xs Eu Ez s1 _. exists (Some zero). split.
-        * destruct aux. reflexivity.
-        * right. split; [|reflexivity]. subst s1.
-          cbn in Ez. destruct r as [|b [|c [|d [|? ?]]]]; try discriminate. injection Ez as <-.
-          destruct a as [|x a]; [cbn in Hn; lia|]. destruct n as [|n]; [lia|]. cbn [firstn].
-          apply trapall_run_cons.
+      - intros; reflexivity.
+      - intros aux a b [->|[-> ->]]; reflexivity.
+      - intros aux st xs Eu Ez s1 _. destruct aux.
+        destruct s1 as [m|].
+        + exists (Some m). split; [reflexivity|left; reflexivity].
+        + exists (Some zero). split; [reflexivity|right; split; reflexivity]. }
+    unfold split_at, split_then in *. rewrite !storage_trap_all_kernel_eq, M.
+    destruct (trapall_machine s0 (firsts n ins)) as [[o1 s1]|]; [|reflexivity].
+    now rewrite storage_trap_all_kernel_eq.
   Qed.
 
   (* ---------------------------------------------------------------- InstreamDissolvedNutrientDecay *)
   (** the fifth input (floodplainDepositionFraction) is not used *)
-  Definition dn_guard (ins : list (list T)) : bool :=
-    match ins with [_; _; []; _; _] => false | _ => true end.
   Definition dn_low_zip (ins : list (list T)) : option (list lumped_in) :=
     match ins with
     | [up; lat; vol; outflow; _] => Some (lumped_rows up (Some lat) outflow vol)
@@ -456,29 +437,30 @@ Section S.
     | _ => None
     end.
 
+  (** since fix b73cc97 an empty series is accepted (state carried unchanged): no guard *)
   Lemma dn_kernel_nodecay_eq (p : list T) doDecay psl dp :
     dn_params_of p = Some (doDecay, psl, dp) -> (doDecay <? of_q 1 2) = true ->
     forall s ins, instream_dissolved_nutrient_decay_kernel p s ins =
-                  if dn_guard ins then dn_nodecay_machine psl (dn_durationInSeconds dp) s ins else None.
+                  dn_nodecay_machine psl (dn_durationInSeconds dp) s ins.
   Proof.
     intros Ep Ed s ins.
     destruct p as [|d0 [|psl0 [|lh [|lw [|ll [|uv [|dt [|? ?]]]]]]]]; try discriminate.
     cbn in Ep. injection Ep as <- <- <-. cbn [dn_durationInSeconds].
     unfold instream_dissolved_nutrient_decay_kernel, dn_nodecay_machine, kernel_of_machine, unpack1, dn_low_zip,
-      dn_guard, lumped_transport.
+      lumped_transport.
     destruct s as [|m [|? ?]].
-    - destruct ins as [|a [|b [|[|? ?] [|d [|e [|? ?]]]]]]; reflexivity.
-    - destruct ins as [|a [|b [|c [|d [|e [|? ?]]]]]]; try reflexivity; try (destruct c; reflexivity).
-      destruct c as [|v0 c]; [reflexivity|]. rewrite Ed. reflexivity.
-    - destruct ins as [|a [|b [|[|? ?] [|d [|e [|? ?]]]]]]; reflexivity.
+    - destruct ins as [|a [|b [|c [|d [|e [|? ?]]]]]]; reflexivity.
+    - destruct ins as [|a [|b [|c [|d [|e [|? ?]]]]]]; try reflexivity.
+      rewrite Ed. reflexivity.
+    - destruct ins as [|a [|b [|c [|d [|e [|? ?]]]]]]; reflexivity.
   Qed.
 
+  (** every cut, including empty segments *)
   Theorem instream_dissolved_nutrient_nodecay_split_partial (p s0 : list T) ins n doDecay psl dp :
     dn_params_of p = Some (doDecay, psl, dp) -> (doDecay <? of_q 1 2) = true ->
-    (forall up lat vol r, ins = up :: lat :: vol :: r -> 0 < n < length vol) ->
     split_at (instream_dissolved_nutrient_decay_kernel p) s0 ins n.
   Proof.
-    intros Ep Ed Hn.
+    intros Ep Ed.
     pose proof (dn_kernel_nodecay_eq p doDecay psl dp Ep Ed) as E.
     assert (M : split_spec (dn_nodecay_machine psl (dn_durationInSeconds dp))).
     { apply (hc_machine_simple unpack1 dn_low_zip _ pack1
@@ -486,17 +468,9 @@ Section S.
       - apply dn_low_zip_laws.
       - rows_map_tac.
       - apply unpack1_pack1. }
-    destruct ins as [|up [|lat [|vol r]]].
-    1-3: unfold split_at, split_then; rewrite !E; cbn;
-         unfold dn_nodecay_machine, kernel_of_machine; destruct (unpack1 s0) as [[? ?]|]; reflexivity.
-    specialize (Hn up lat vol r eq_refl).
-    apply (split_at_guard _ _ dn_guard E); [| | |apply M].
-    - cbn. destruct vol; [cbn in Hn; lia|]. destruct r as [|? [|? [|? ?]]]; reflexivity.
-    - cbn. destruct vol as [|v vol]; [cbn in Hn; lia|]. destruct n; [lia|].
-      destruct r as [|? [|? [|? ?]]]; reflexivity.
-    - cbn. destruct (skipn n vol) eqn:Es.
-      + apply (f_equal (@length T)) in Es. rewrite skipn_length in Es. cbn in Es. lia.
-      + destruct r as [|? [|? [|? ?]]]; reflexivity.
+    specialize (M s0 ins n). unfold split_at, split_then in *. rewrite !E, M.
+    destruct (dn_nodecay_machine psl (dn_durationInSeconds dp) s0 (firsts n ins)) as [[o1 s1]|]; [|reflexivity].
+    now rewrite E.
   Qed.
 
   (** decay ON: the loop state is (storedMass, previous reach volume), and the
@@ -510,7 +484,7 @@ Section S.
     2:{ intros s0 ins ins' t o sT o' sT' _ E1.
         destruct p as [|d0 [|psl0 [|lh [|lw [|ll [|uv [|dt [|? ?]]]]]]]]; try discriminate. }
     destruct (doDecay <? of_q 1 2) eqn:Ed.
-    { eapply causal_guard; [apply (dn_kernel_nodecay_eq p doDecay psl dp Ep Ed)|].
+    { eapply causal_spec_ext; [apply (dn_kernel_nodecay_eq p doDecay psl dp Ep Ed)|].
       apply kernel_of_machine_causal; [apply dn_low_zip_laws|apply rows_outs_laws; rows_map_tac]. }
     destruct p as [|d0 [|psl0 [|lh [|lw [|ll [|uv [|dt [|? ?]]]]]]]]; try discriminate.
     cbn in Ep. injection Ep as <- <- <-.
@@ -519,24 +493,27 @@ Section S.
     destruct s0 as [|m [|? ?]]; try discriminate.
     destruct ins as [|up [|lat [|vol [|outflow [|fpf [|? ?]]]]]]; try discriminate.
     destruct ins' as [|up' [|lat' [|vol' [|outflow' [|fpf' [|? ?]]]]]]; try discriminate.
-    destruct vol as [|v0 vol]; [discriminate|]. destruct vol' as [|v0' vol']; [discriminate|].
     rewrite Ed in E1, E2.
     set (dp := mk_dn_params _ _ _ _ _ _) in *.
     destruct t as [|t].
-    { destruct (run (dn_decay_step dp) (m, v0) _) as [[s' ?] os].
-      destruct (run (dn_decay_step dp) (m, v0') _) as [[s'' ?] os'].
+    { destruct (run (dn_decay_step dp) _ _) as [[s' ?] os].
+      destruct (run (dn_decay_step dp) _ _) as [[s'' ?] os'].
       injection E1 as <- _. injection E2 as <- _. reflexivity. }
     unfold firsts in Hf. cbn [map] in Hf.
     assert (H1 : firstn (S t) up = firstn (S t) up') by congruence.
     assert (H2 : firstn (S t) lat = firstn (S t) lat') by congruence.
-    assert (H3 : firstn (S t) (v0 :: vol) = firstn (S t) (v0' :: vol')) by congruence.
+    assert (H3 : firstn (S t) vol = firstn (S t) vol') by congruence.
     assert (H4 : firstn (S t) outflow = firstn (S t) outflow') by congruence.
-    assert (Ev : v0 = v0') by (cbn in H3; congruence). subst v0'.
-    assert (Hx : firstn (S t) (dn_rows up lat (v0 :: vol) outflow) = firstn (S t) (dn_rows up' lat' (v0 :: vol') outflow')).
+    (* the first reach volume (the initial prevVolume) is part of the common prefix *)
+    assert (Ev : match vol with [] => zero | v :: _ => v end = match vol' with [] => zero | v :: _ => v end).
+    { destruct vol as [|v0 vol], vol' as [|v0' vol']; cbn in H3; try discriminate; [reflexivity|congruence]. }
+    rewrite <- Ev in E2.
+    set (v0 := match vol with [] => zero | v :: _ => v end) in *.
+    assert (Hx : firstn (S t) (dn_rows up lat vol outflow) = firstn (S t) (dn_rows up' lat' vol' outflow')).
     { unfold dn_rows, zip4, zip3. rewrite !firstn_map_comm, !firstn_combine, H1, H2, H3, H4. reflexivity. }
     pose proof (run_causal (dn_decay_step dp) (m, v0) _ _ (S t) Hx) as Hc.
-    destruct (run (dn_decay_step dp) (m, v0) (dn_rows up lat (v0 :: vol) outflow)) as [[s' ?] os].
-    destruct (run (dn_decay_step dp) (m, v0) (dn_rows up' lat' (v0 :: vol') outflow')) as [[s'' ?] os'].
+    destruct (run (dn_decay_step dp) (m, v0) (dn_rows up lat vol outflow)) as [[s' ?] os].
+    destruct (run (dn_decay_step dp) (m, v0) (dn_rows up' lat' vol' outflow')) as [[s'' ?] os'].
     cbn [snd] in Hc. injection E1 as <- _. injection E2 as <- _.
     unfold zeros. cbn [firsts map]. rewrite !firstn_map_comm, Hc. reflexivity.
   Qed.
